@@ -13,6 +13,9 @@ KEYS = ("x", "A", "args", "start", "end", "bs", "out", "T", "tlo", "thi", "hyp",
 
 
 def run(ctx):
+    # the index arithmetic (generation order, flattening, row-major reshape, argument repetition) as a design model
+    ctx.model_check("IndexMaps", "IndexMaps_MC.cfg")
+    ctx.spec_mutant("IndexMaps", "IndexMaps_MC_ism_asfound.cfg", violated="ISMIndexOK")
     cfg = "ISM_MC_quick.cfg" if ctx.quick else "ISM_MC_thorough.cfg"
     std.m1(ctx, "ISM", cfg, "c09", evkeys=KEYS)
 
